@@ -155,3 +155,11 @@ package rlp
 //@   requires w != nil
 //@   modifies w.buf, w.dst, w.ownBuffer
 //@   ensures [releasedBufferForgotten] w.buf == nil && w.dst == nil && !w.ownBuffer
+
+// A uint8-kinded type is written as a byte (and slices/arrays of it as a string) unless the type ITSELF
+// implements Encoder: the value method set decides, as in the decoder.
+//@ func isByte(typ reflect.Type) (r bool)
+//@   for C16
+//@   requires typ != nil
+//@   modifies *
+//@   atcall Type.Implements requires [valueMethodSetDecides] recv == typ && u == encoderInterface
